@@ -101,6 +101,10 @@ class ScriptRNG:
             probs = [float(x) for x in np.asarray(p, dtype=float)]
             if len(probs) != n:
                 raise ValueError("a and p must have same size")
+            if any(x != x for x in probs):          # numpy's Generator.choice does the same
+                raise ValueError("probabilities contain NaN")
+            if any(x < 0 for x in probs):
+                raise ValueError("probabilities are not non-negative")
         info = {"p_sum": float(sum(probs)), "p": probs if p is not None else None}
         if size is None:
             return arr[self._decide(probs, "choice", info)]
